@@ -167,30 +167,39 @@ Definition glayout_ok (p : gprog) : bool :=
 Definition gatom_in (n : gnum) : bool := (1 <=? nval n) && (nval n <=? atomMax).
 Definition gweight_in (n : gnum) : bool := nval n <=? INT_MAX.
 Definition gcount_in (n : gnum) : bool := nval n <=? UINT_MAX.
-Definition gbody_in (b : gbody) : bool :=
-  gcount_in (gb_len b) && gcount_in (gb_neg b) && (nval (gb_neg b) <=? nval (gb_len b)) && forallb gatom_in (gb_atoms b).
-Definition grule_in (ext : bool) (r : grule) : bool :=
+(* an atom of a RULE (head, body of any rule type, atom of 91 / 92) and the head count of a choice / disjunctive rule are read with the
+   reader's member matchAtom: 1 .. vm, vm = the limit set with ProgramReader::setMaxVar (default sm_varMax = atomMax); symbol-table,
+   compute and E-section atoms are read with matchPos(atomMax): gatom_in whatever vm is *)
+Definition gratom_in (vm : Z) (n : gnum) : bool := (1 <=? nval n) && (nval n <=? vm).
+Definition gbody_in_v (vm : Z) (b : gbody) : bool :=
+  gcount_in (gb_len b) && gcount_in (gb_neg b) && (nval (gb_neg b) <=? nval (gb_len b)) && forallb (gratom_in vm) (gb_atoms b).
+Definition grule_in_v (vm : Z) (ext : bool) (r : grule) : bool :=
   match r with
-  | GBasic _ h b => gatom_in h && gbody_in b
-  | GMulti _ n hs b => gatom_in n && forallb gatom_in hs && gbody_in b
-  | GCard _ h b bnd => gatom_in h && gbody_in b && gweight_in bnd
-  | GWeight _ h bnd b wts => gatom_in h && gweight_in bnd && gbody_in b && forallb gweight_in wts
-  | GMin _ bnd b wts => gweight_in bnd && gbody_in b && forallb gweight_in wts
+  | GBasic _ h b => gratom_in vm h && gbody_in_v vm b
+  | GMulti _ n hs b => gratom_in vm n && forallb (gratom_in vm) hs && gbody_in_v vm b
+  | GCard _ h b bnd => gratom_in vm h && gbody_in_v vm b && gweight_in bnd
+  | GWeight _ h bnd b wts => gratom_in vm h && gweight_in bnd && gbody_in_v vm b && forallb gweight_in wts
+  | GMin _ bnd b wts => gweight_in bnd && gbody_in_v vm b && forallb gweight_in wts
   | GInc _ z => ext && (nval z =? 0)
-  | GAssign _ a v => ext && gatom_in a && (nval v <=? 2)
-  | GRelease _ a => ext && gatom_in a
+  | GAssign _ a v => ext && gratom_in vm a && (nval v <=? 2)
+  | GRelease _ a => ext && gratom_in vm a
   end.
 Definition gext_in (e : option (list Z * list gnum * gnum)) : bool :=
   match e with Some (_, l, _) => forallb gatom_in l | None => true end.
-Definition gstep_in (ext : bool) (s : gstep) : bool :=
-  forallb (grule_in ext) (g_rules s) && forallb (fun y => gatom_in (gy_atom y)) (g_syms s) &&
+Definition gstep_in_v (vm : Z) (ext : bool) (s : gstep) : bool :=
+  forallb (grule_in_v vm ext) (g_rules s) && forallb (fun y => gatom_in (gy_atom y)) (g_syms s) &&
   forallb gatom_in (g_bplus s) && forallb gatom_in (g_bminus s) && gext_in (g_ext s) && gcount_in (g_models s).
 (* a text whose first byte is '9' is an incremental program: only with the clasp extension; only such a text may have
    more than one step *)
 Definition gincremental (p : gprog) : bool := hd 0 (grender p) =? 57.
-Definition gin_range (ext : bool) (p : gprog) : bool :=
-  forallb (gstep_in ext) (gp_steps p) && (negb (gincremental p) || ext) &&
+Definition gin_range_v (vm : Z) (ext : bool) (p : gprog) : bool :=
+  forallb (gstep_in_v vm ext) (gp_steps p) && (negb (gincremental p) || ext) &&
   ((length (gp_steps p) <=? 1)%nat || gincremental p).
+(* without a configured limit: vm = sm_varMax (= atomMax) *)
+Definition gbody_in : gbody -> bool := gbody_in_v sm_varMax.
+Definition grule_in : bool -> grule -> bool := grule_in_v sm_varMax.
+Definition gstep_in : bool -> gstep -> bool := gstep_in_v sm_varMax.
+Definition gin_range : bool -> gprog -> bool := gin_range_v sm_varMax.
 
 (* ---------------- denotation ---------------- *)
 Definition d_gbody (b : gbody) : list Z :=
